@@ -50,8 +50,23 @@ func vrtEnd(c *vrtConn, how int) bool {
 		return true
 	case 5:
 		// DISCONNECT and the TCP close arrive together: the DISCONNECT is still in the
-		// input ring when the receiver sees end-of-stream
-		c.peerSend(specEncode(&specPkt{Typ: specDISCONNECT}))
+		// input ring when the receiver sees end-of-stream (possibly even in the same Read)
+		c.mu.Lock()
+		c.eofWithLast = vrtBool("eof_with_last_bytes")
+		c.peerClosed = true
+		c.in = append(c.in, specEncode(&specPkt{Typ: specDISCONNECT})...)
+		c.cond.Broadcast()
+		c.mu.Unlock()
+		vrtQuiesce()
+		return true
+	case 6:
+		// the write side of the connection is already broken (the broker cannot answer any
+		// more) when the client sends a request and, right behind it, DISCONNECT
+		c.mu.Lock()
+		c.failWrites = true
+		c.mu.Unlock()
+		vrtExchange(c, &specPkt{Typ: specPINGREQ})
+		c.peerSend(append(specEncode(&specPkt{Typ: specPINGREQ}), specEncode(&specPkt{Typ: specDISCONNECT})...))
 		c.peerClose()
 		vrtQuiesce()
 		return true
@@ -103,7 +118,7 @@ func H09_will() {
 		vrtAssert("C09.harness_pingresp", vrtBytesEq(pong, []byte{0xD0, 0}))
 	}
 	vrtAssert("C09.nothing_before_end", len(wit.peerTake()) == 0)
-	how := vrtChoice("end", 6)
+	how := vrtChoice("end", 7)
 	disc := vrtEnd(c, how)
 	vrtAssert("C09.connection_closed", c.isClosed())
 	vrtCheckWill("", wit, w, w.flag && !disc)
@@ -112,6 +127,12 @@ func H09_will() {
 	} else {
 		vrtAssert("C09.will_not_retained", b.retainedCount() == 0)
 	}
+	// the end of the connection was processed completely: a clean session leaves nothing
+	want := 2
+	if clean {
+		want = 1
+	}
+	vrtAssert("C09.teardown_completed", b.svr.sessMgr.Count() == want)
 	vrtObserve("will", how, w.flag)
 	vrtReach("C09.ended")
 }
@@ -127,15 +148,35 @@ func H09_reconnect() {
 	c1, _ := b.connect(vrtConnectWithWill([]byte("c"), clean1, w1))
 	disc1 := vrtEnd(c1, vrtChoice("end1", 2))
 	vrtCheckWill(".first", wit, w1, w1.flag && !disc1)
+	retainedAfter1 := b.retainedCount()
+	if w1.flag && !disc1 && w1.retain && len(w1.payload) > 0 {
+		vrtAssert("C09.first_will_retained", retainedAfter1 == 1)
+	} else {
+		vrtAssert("C09.first_will_not_retained", retainedAfter1 == 0)
+	}
 	w2 := vrtSymbolicWill("will2")
+	sameTopic := false
 	if w1.flag && w2.flag {
-		vrtAssume(w1.topic[1] != w2.topic[1]) // different wills
+		sameTopic = w1.topic[1] == w2.topic[1] // (the second CONNECT may be byte-identical to the first)
 	}
 	clean2 := vrtBool("clean2")
 	c2, ack := b.connect(vrtConnectWithWill([]byte("c"), clean2, w2))
 	vrtAssert("C09.harness_connack2", vrtIsConnack(ack, !clean1 && !clean2, 0))
 	disc2 := vrtEnd(c2, vrtChoice("end2", 2))
 	vrtCheckWill(".second", wit, w2, w2.flag && !disc2)
+	// the retained store reflects the second will's own retain flag
+	if w2.flag && !disc2 {
+		want := retainedAfter1
+		stores := w2.retain && len(w2.payload) > 0
+		clears := w2.retain && len(w2.payload) == 0
+		switch {
+		case stores && !(sameTopic && retainedAfter1 == 1):
+			want++
+		case clears && sameTopic && retainedAfter1 == 1:
+			want--
+		}
+		vrtAssert("C09.second_will_retain_flag", b.retainedCount() == want)
+	}
 	vrtReach("C09.reconnected")
 }
 
@@ -148,8 +189,22 @@ func H10_sessions() {
 	vrtAssume(vrtAnd(ids[0] >= 'a', ids[0] <= 'z'))
 	vrtAssume(vrtAnd(ids[1] >= 'a', ids[1] <= 'z'))
 	same := ids[0] == ids[1]
-	// model: persistent store (present, subscribed to "t")
+	// model: persistent store (present, subscribed to "t" with which granted QoS)
 	var present, stored [2]bool
+	var storedQ [2]byte
+	pubID := uint16(50)
+	publish := func(payload string) {
+		pubID++
+		vrtExchange(wit, &specPkt{Typ: specPUBLISH, Flags: 2, ID: pubID, Topic: []byte("t"), Payload: []byte(payload)})
+	}
+	check := func(c *vrtConn, tag string, sub bool, q byte) {
+		got, ok := vrtParse(c.peerTake())
+		vrtAssert("C10.stream_wellformed", ok)
+		vrtAssert("C10."+tag+"_delivers", len(got) == vrtIteInt(sub, 1, 0))
+		if sub && len(got) == 1 {
+			vrtAssert("C10."+tag+"_qos", (got[0].Flags>>1)&3 == specMinQos(1, q))
+		}
+	}
 	for k := 0; k < K; k++ {
 		which := vrtChoice("which", 2)
 		mi := which
@@ -161,37 +216,44 @@ func H10_sessions() {
 		sp := !clean && present[mi]
 		vrtAssert("C10.session_present_flag", vrtIsConnack(ack, sp, 0))
 		sub := false
+		q := byte(0)
 		if clean {
 			present[mi], stored[mi] = false, false
 		} else {
 			sub = present[mi] && stored[mi]
+			q = storedQ[mi]
 			present[mi] = true
 		}
-		// a publish right after CONNACK: delivered iff the resumed session holds the subscription
-		vrtExchange(wit, &specPkt{Typ: specPUBLISH, Topic: []byte("t"), Payload: []byte("1")})
-		got, ok := vrtParse(c.peerTake())
-		vrtAssert("C10.stream_wellformed", ok)
-		vrtAssert("C10.restored_subscription_delivers", len(got) == vrtIteInt(sub, 1, 0))
+		// a QoS 1 publish right after CONNACK: delivered iff the resumed session holds the
+		// subscription, at the QoS that was granted before the disconnect
+		publish("1")
+		check(c, "restored_subscription", sub, q)
 		if sub {
 			vrtReach("C10.restored")
 		}
-		switch vrtChoice("action", 3) {
-		case 1:
-			ans := vrtExchange(c, &specPkt{Typ: specSUBSCRIBE, ID: 9, Topics: [][]byte{[]byte("t")}, QoS: []byte{0}})
-			vrtAssert("C10.harness_suback", vrtBytesEq(ans, []byte{0x90, 3, 0, 9, 0}))
+		switch vrtChoice("action", 4) {
+		case 1, 3:
+			q = vrtByte("q")
+			vrtAssume(q <= 1)
+			ans := vrtExchange(c, &specPkt{Typ: specSUBSCRIBE, ID: 9, Topics: [][]byte{[]byte("t")}, QoS: []byte{q}})
+			vrtAssert("C10.harness_suback", vrtBytesEq(ans, []byte{0x90, 3, 0, 9, q}))
 			sub = true
 		case 2:
 			ans := vrtExchange(c, &specPkt{Typ: specUNSUBSCRIBE, ID: 9, Topics: [][]byte{[]byte("t")}})
 			vrtAssert("C10.harness_unsuback", vrtBytesEq(ans, []byte{0xB0, 2, 0, 9}))
 			sub = false
 		}
-		if !clean {
-			stored[mi] = sub
+		if vrtConcretize(vrtIteInt(sub, 1, 0)) == 1 && vrtBool("resubscribe_other_qos") {
+			// the same filter again, with another QoS: the later one counts
+			q = 1 - q
+			ans := vrtExchange(c, &specPkt{Typ: specSUBSCRIBE, ID: 10, Topics: [][]byte{[]byte("t")}, QoS: []byte{q}})
+			vrtAssert("C10.harness_suback2", vrtBytesEq(ans, []byte{0x90, 3, 0, 10, q}))
 		}
-		vrtExchange(wit, &specPkt{Typ: specPUBLISH, Topic: []byte("t"), Payload: []byte("2")})
-		got, ok = vrtParse(c.peerTake())
-		vrtAssert("C10.stream_wellformed", ok)
-		vrtAssert("C10.live_subscription_delivers", len(got) == vrtIteInt(sub, 1, 0))
+		if !clean {
+			stored[mi], storedQ[mi] = sub, q
+		}
+		publish("2")
+		check(c, "live_subscription", sub, q)
 		vrtEnd(c, vrtChoice("end", 2))
 		vrtAssert("C10.connection_closed", c.isClosed())
 		// nothing of a clean session survives; a persistent one stays in the store
@@ -203,6 +265,7 @@ func H10_sessions() {
 			n++
 		}
 		vrtAssert("C10.session_store_size", b.svr.sessMgr.Count() == n+1)
+		wit.peerTake()
 	}
 	vrtReach("C10.history")
 }
